@@ -62,7 +62,8 @@ Definition files (a : archive) : res (list frec) :=
                   match r with
                   | RX _ => Err ModelError
                   | RE _ uri _ _ _ _ _ kids =>
-                      xs <- mapM (rel_row dir) kids ;;
+                      xs <- mapM (rel_row dir)
+                              (filter (fun k => match k with RE _ _ _ _ _ _ _ _ => true | RX _ => false end) kids) ;;
                       Ok (xs ++ [{| f_id := s_none; f_type := path_name (ostr uri);
                                     f_target := n; f_dir := dir |}])
                   end) parsed ;;
@@ -87,7 +88,7 @@ Definition file_rels (a : archive) (fs : list frec) (f : frec) : res (list (str 
       | RE _ _ _ _ _ _ _ kids =>
           foldM (fun d k =>
                    match k with
-                   | RX _ => Err KeyError
+                   | RX _ => Ok d                    (* comment or PI: skipped *)
                    | RE _ _ _ _ attrs _ _ _ =>
                        id <- of_opt KeyError (alookup (None, s_Id) attrs) ;;
                        tg <- of_opt KeyError (alookup (None, s_Target) attrs) ;;
